@@ -19,7 +19,8 @@ RULE = ('Three generated parts. gate: auth configured as a non-empty dict of '
         'predicate (total, returning bools or truthy / falsy values, or '
         'raising on payloads of a shape it does not expect), or False; '
         'modes x read_only; an asynchronous predicate that is still '
-        'deciding while application traffic goes on; admin CONNECT with payload '
+        'deciding while application traffic goes on and the candidate '
+        'already sends admin commands; admin CONNECT with payload '
         'absent, None, non-dicts, exact match, key permutations, '
         'sub/supersets, type-confused and nested variants, other list '
         'members: accepted iff the documented rule says so, a refused '
@@ -274,6 +275,20 @@ def _gate(case):
                 P.MESSAGE, '0/admin,{"username":"nobody","password":"x"}')))
             loop.run_until_idle()
             pending = not task.done()
+            # ... and the candidate does not wait for its verdict either: it
+            # sends the admin commands right away
+            w.recv(app_t)
+            if not case['read_only']:
+                w.send(t, wire.EVENT, '/admin', None,
+                       ['emit', '/', None, 'pwned', 'boo'])
+                w.h.settle()
+                got_app = w.recv(app_t)
+                if pending and any('pwned' in repr(p) for p in got_app):
+                    raise Violation('pending-admin-command-executed',
+                                    'a candidate whose authentication was '
+                                    'still pending (and then failed) had its '
+                                    'emit command executed: the application '
+                                    'client received %r' % (got_app[:1],))
             w.send(app_t, wire.EVENT, '/', None, ['a', 'secret-123'])
             w.h.settle()
             leaked = [p for p in w.recv(t) if 'secret-123' in repr(p)]
